@@ -1890,3 +1890,152 @@ func lruHitVars(f *Func) (entry, found types.Object) {
 	})
 	return
 }
+
+// ================================ rules from round 12 ======================================================
+
+// ruleMadeThenAppended: make([]T, n) followed by append leaves n zero values in front.
+func ruleMadeThenAppended(c *Ctx, rule string, pkgs ...string) {
+	c.Rule(rule, "a slice that is filled with append starts empty: a local made with a non-zero LENGTH (`make([]T, n)`, two arguments) is not afterwards extended with append while nothing ever stores into its elements by index — the n zero values stay in front of what was appended (`make([]int, len(groupBy))` + append puts select column 0 into the group key once per grouping column, and groups split on the value of that column)")
+	w := c.W
+	n := 0
+	for _, name := range w.SortedFuncNames() {
+		f := w.Funcs[name]
+		inPkg := false
+		for _, p := range pkgs {
+			if f.Pkg == w.Pkgs[p] {
+				inPkg = true
+			}
+		}
+		if !inPkg {
+			continue
+		}
+		inspectBody(f.Decl.Body, func(x ast.Node) bool {
+			as, ok := x.(*ast.AssignStmt)
+			if !ok || len(as.Lhs) != 1 || len(as.Rhs) != 1 {
+				return true
+			}
+			id, ok := as.Lhs[0].(*ast.Ident)
+			if !ok {
+				return true
+			}
+			mk, ok := ast.Unparen(as.Rhs[0]).(*ast.CallExpr)
+			if !ok || len(mk.Args) != 2 {
+				return true
+			}
+			if fid, ok := mk.Fun.(*ast.Ident); !ok || fid.Name != "make" {
+				return true
+			}
+			if _, isSlice := f.TypeOf(mk.Args[0]).Underlying().(*types.Slice); !isSlice {
+				return true
+			}
+			if cv := f.constOf(mk.Args[1]); cv != nil && cv.String() == "0" {
+				return true
+			}
+			obj := f.ObjOf(id)
+			n++
+			appended, indexed, escapes := false, false, false
+			ast.Inspect(f.Decl.Body, func(y ast.Node) bool {
+				switch z := y.(type) {
+				case *ast.AssignStmt:
+					for i, l := range z.Lhs {
+						if ix, ok := ast.Unparen(l).(*ast.IndexExpr); ok {
+							if xid, ok := ast.Unparen(ix.X).(*ast.Ident); ok && f.ObjOf(xid) == obj {
+								indexed = true
+							}
+						}
+						if lid, ok := l.(*ast.Ident); ok && f.ObjOf(lid) == obj && i < len(z.Rhs) {
+							if call, ok := ast.Unparen(z.Rhs[i]).(*ast.CallExpr); ok {
+								if fid, ok := call.Fun.(*ast.Ident); ok && fid.Name == "append" && len(call.Args) >= 1 {
+									if a0, ok := ast.Unparen(call.Args[0]).(*ast.Ident); ok && f.ObjOf(a0) == obj {
+										appended = true
+									}
+								}
+							}
+						}
+					}
+				case *ast.CallExpr:
+					if fid, ok := z.Fun.(*ast.Ident); ok && (fid.Name == "append" || fid.Name == "len" || fid.Name == "cap") {
+						return true
+					}
+					for _, a := range z.Args {
+						if aid, ok := ast.Unparen(a).(*ast.Ident); ok && f.ObjOf(aid) == obj {
+							escapes = true // copy(x, …), io.ReadFull(r, x), binary.Read …: filled by a callee
+						}
+						if sl, ok := ast.Unparen(a).(*ast.SliceExpr); ok {
+							if aid, ok := ast.Unparen(sl.X).(*ast.Ident); ok && f.ObjOf(aid) == obj {
+								escapes = true
+							}
+						}
+					}
+				case *ast.RangeStmt:
+					// for i := range x { x[i] = … } is covered by indexed
+				}
+				return true
+			})
+			key := f.Name + "|made-then-appended|" + id.Name
+			if appended && !indexed && !escapes {
+				c.FailConfined(rule, key, as.Pos(), "%s makes %s with length %s and then only appends to it: the first %s elements stay zero values in front of the appended ones", f.Name, id.Name, exprKey(mk.Args[1]), exprKey(mk.Args[1]))
+			} else {
+				c.OK(rule, key, as.Pos(), 1, "made with a length and filled by index / by a callee, or never appended to")
+			}
+			return true
+		})
+	}
+	if n == 0 {
+		c.OK(rule, "subjects|none", token.NoPos, 1, "no slice is made with a non-zero length in %v", pkgs)
+	}
+}
+
+// ruleStampAfterSuccess: a page is stamped with an LSN only when the change the LSN belongs to has happened.
+func ruleStampAfterSuccess(c *Ctx, rule string) {
+	c.Rule(rule, "a page is stamped only once its change cannot be refused any more: in the logged mutators of RelationService (Insert goes through BTree.insert, which has its own rule; Update, MarkDeleted, updatePageTable) no path leads from a markDirty(nextLSN) call to an error return of the same function — a stamp placed in front of updateCell survives a refused (oversized) UPDATE, the flusher writes the page with an LSN no record carries, and redo skips the next logged change of that page after a crash")
+	w := c.W
+	n := 0
+	for _, name := range []string{"storage.(*RelationService).Update", "storage.(*RelationService).MarkDeleted", "storage.(*RelationService).updatePageTable"} {
+		f := w.F(name)
+		if f == nil {
+			continue
+		}
+		check := func(g *Graph, body ast.Node, where string) {
+			for _, call := range f.Calls(body, false, "storage.btreeNode.markDirty") {
+				n++
+				key := f.Name + where + "|stamp-after-success#" + itoa(n)
+				loc, ok := g.Locate(call)
+				if !ok {
+					continue
+				}
+				start := loc
+				first := true
+				hit, _ := g.Forward(&start, nil, func(nn ast.Node, at Loc) Verdict {
+					if first {
+						first = false
+						return Go
+					}
+					if r, ok := nn.(*ast.ReturnStmt); ok {
+						if len(r.Results) > 0 && !g.ReturnMayBeNil(r) {
+							return Hit
+						}
+						return Cut
+					}
+					return Go
+				}, nil)
+				if hit {
+					c.Fail(rule, key, call.Pos(), "%s can still return an error after it has stamped the page with markDirty: a refused change leaves a page carrying an LSN that is in no log record", f.Name)
+				} else {
+					c.OK(rule, key, call.Pos(), 2, "no error return is reachable after the stamp")
+				}
+			}
+		}
+		check(f.Graph(), f.Decl.Body, "")
+		ast.Inspect(f.Decl.Body, func(x ast.Node) bool {
+			if lit, ok := x.(*ast.FuncLit); ok {
+				check(f.LitGraph(lit), lit.Body, "$lit")
+				return false
+			}
+			return true
+		})
+	}
+	if n == 0 {
+		c.Undecided(rule, "subjects|stamps", "no markDirty call found in Update / MarkDeleted / updatePageTable")
+	}
+}
